@@ -348,6 +348,15 @@ class C03(Prop):
                                     {'dt': rng.choice([0.01, 0.1, 0.3])}])})
                 out.append(op)
             ops = out
+        if rng.random() < 0.08:
+            # captured output of workers that write all the time into a
+            # stream that fails (disk full): whatever the stream does, the
+            # SIGKILL is owed at the end of the grace period
+            for wc in cfg['watchers']:
+                wc['stream_objects'] = True
+            cfg['chatty_markers'] = [wc.get('marker', wc['name'])
+                                     for wc in cfg['watchers']]
+            cfg['stream_fail'] = rng.random() < 0.7
         if rng.random() < 0.1:
             # the wall clock is stepped while grace periods run: they are
             # lengths of time, not differences of wall-clock readings
